@@ -484,8 +484,9 @@ Proof.
     assert (R : root c' = root (impl s) /\ keys c' = keys (impl s)).
     { unfold ic_check in E. destruct (restrict (keys (impl s)) a) as [|kv ra]; [injection E as _ <-; now split|].
       destruct (ss_check (sset (impl s)) (kv :: ra)). injection E as _ <-. now split. }
-    destruct R as [R1 R2]. unfold Indexed. cbn [impl spec]. rewrite R1, R2. repeat split; assumption.
-  - repeat split; assumption.
+    destruct R as [R1 R2]. unfold Indexed. cbn [impl spec]. rewrite R1, R2.
+    split; [exact W | split; [exact S | split; [exact N | exact P]]].
+  - split; [exact W | split; [exact S | split; [exact N | exact P]]].
   - unfold Indexed. cbn [ic_clear impl spec root keys]. split; [apply WF_nil|]. split; [apply Shaped_nil|]. split; [constructor | intros b o []].
 Qed.
 
